@@ -103,13 +103,6 @@ func c29ErrKind(err error) int {
 	return 2
 }
 
-func coqOptStr(s *string) string {
-	if s == nil {
-		return "None"
-	}
-	return "(Some " + CoqStr(*s) + ")"
-}
-
 func runC29(args []string) error {
 	fs := flag.NewFlagSet("c29", flag.ExitOnError)
 	out := fs.String("out", "/verif/work/C29/c29", "output dir")
